@@ -14,6 +14,8 @@
 // move-only / copy-only element; capacities 1,2,3,4,16 and (sv, iv) 0.
 // A history that ends in a fired precondition prints the steps up to it and `; stopped ; wf <b>` (mon: `contract wf <b>`):
 // nothing is compared about what happens after a contract violation.
+// Build variants (prop.py HARNESSES): main; noexc = -fno-exceptions -DC03_EXPECT_NOEXC (the `#else` branches of the library's
+// `#if defined(__cpp_exceptions)` splits; cases with a throwing constructor print `skip`); asan / asan_noexc (thorough tier).
 // Operations added by the review: irf / mif / asf / ctf (range members with forward-iterator sources), cta (construction
 // from T[n]), kcc / kmc (stack from a container), fei (erase_if on a flat_set); o-family: vsv vsu vsr vau vaw vnd vne vnc
 // vnl vnm vrc vrm fac; a-family: ace ame acp amp aqa aqm; pcopy / pown (below).
@@ -38,6 +40,15 @@
 #include <etl/vector.hpp>
 
 #include "c03_track.hpp"
+
+// variant `noexc` (-fno-exceptions -DC03_EXPECT_NOEXC): the branch of every `#if defined(__cpp_exceptions)` split of the
+// library that the exceptions-enabled builds never compile (uninitialized_copy / _move / _fill)
+#if defined(C03_EXPECT_NOEXC) && defined(__cpp_exceptions)
+    #error "the noexc variant must be compiled with -fno-exceptions"
+#endif
+#if !defined(C03_EXPECT_NOEXC) && !defined(__cpp_exceptions)
+    #error "only the noexc variant may be compiled without exceptions"
+#endif
 
 using namespace vh;
 
@@ -470,8 +481,10 @@ static bool dispatch(std::string const& kind, i64 cap, std::vector<Step> const& 
 // =================================================================================================
 // owners of one object at a time: variant / optional / expected / inplace_function
 //   ohist <family> <k> <ops...>   omon <family> <k> <ops...>   (orawhist: raw events)
-// family = (var|opt|exp|fun)_(cm|m|c)
+// family = (var|vpd|opt|exp|fun)_(cm|m|c|t)
 //   var: etl::variant<T<0>, int, T<2>>      opt: etl::optional<T<1>>
+//   vpd: etl::variant<T<0>, int, T<2>, Pod> (Pod: trivially destructible class type, not instrumented)
+//   var / vpd ops by TYPE: vet (emplace<Tj>(x)), vty ({ V tmp(in_place_type<Tj>, x); v = move(tmp); }), vsy ({ V c(in_place_type<Tj>, x); })
 //   exp: etl::expected<T<0>, T<1>>          fun: etl::inplace_function<int(int*), 16> holding T<1> / T<2>
 // observation per object: index of the live alternative and its value (0 when it is not instrumented)
 // =================================================================================================
@@ -492,7 +505,7 @@ static std::vector<OStep> parse_own(Toks& in)
         auto const& o = s.op;
         if (o != "vsw" && o != "fsw") { s.t = static_cast<int>(in.num()); }
         if (o == "vem" || o == "var" || o == "vac" || o == "vav" || o == "vat" || o == "fas" || o == "vvc" || o == "vvm" || o == "vsv"
-            || o == "vsu" || o == "vsr" || o == "vau" || o == "vaw" || o == "fac") {
+            || o == "vsu" || o == "vsr" || o == "vau" || o == "vaw" || o == "fac" || o == "vet" || o == "vty" || o == "vsy") {
             s.j = static_cast<int>(in.num());
             s.x = static_cast<int>(in.num());
         }
@@ -506,18 +519,36 @@ static bool own_is_self(std::string const& op)
     return op == "vsc" || op == "vsm" || op == "vss" || op == "fsc" || op == "fsm" || op == "fss";
 }
 
-template <template <int> class T>
+// a trivially destructible CLASS type as a variant alternative: it has no special member that could be observed (the
+// model treats it like int: no events), but unlike a scalar it reaches the converting assignment template
+// variant::operator=(T&&), which replaces a different held alternative through emplace<T> BY TYPE.  y == x + 1 is
+// checked by observe (an object built over live storage or half built shows up as `torn`).
+struct Pod {
+    int x;
+    int y;
+    Pod() = default;
+    explicit constexpr Pod(int v) noexcept : x{v}, y{v + 1} { }
+};
+static_assert(std::is_class_v<Pod> && std::is_trivially_destructible_v<Pod> && std::is_trivially_copyable_v<Pod>);
+static_assert(etl::is_assignable_v<Pod, Pod> && !etl::is_assignable_v<int, int>);   // why `v = Pod{}` and `v = 1` take different paths
+
+// WithPod = false: etl::variant<T<0>, int, T<2>> (family var); true: etl::variant<T<0>, int, T<2>, Pod> (family vpd)
+template <template <int> class T, bool WithPod = false>
 struct VarAd {
     using A   = T<0>;
     using B   = T<2>;
-    using Obj = etl::variant<A, int, B>;
+    using Obj = etl::conditional_t<WithPod, etl::variant<A, int, B, Pod>, etl::variant<A, int, B>>;
     static constexpr bool is_exp = false;
+    static constexpr bool tracked(i64 idx) { return idx == 0 || idx == 2; }
     static void observe(Obj const& v, i64& idx, i64& val)
     {
         idx = static_cast<i64>(v.index());
         val = 0;
         if (idx == 0) { val = etl::get_if<0>(&v)->v; }
         if (idx == 2) { val = etl::get_if<2>(&v)->v; }
+        if constexpr (WithPod) {
+            if (idx == 3) { auto const* p = etl::get_if<3>(&v); val = (p->y == p->x + 1) ? 0 : -777; }
+        }
     }
     static void apply(OStep const& s, Obj* (&v)[2])
     {
@@ -525,24 +556,52 @@ struct VarAd {
         auto& y        = *v[1 - s.t];
         auto const& op = s.op;
         if (op == "vem") {
+            // emplace<I>(args...) BY INDEX
             if (s.j == 0) { x.template emplace<0>(s.x); }
             else if (s.j == 1) { x.template emplace<1>(s.x); }
-            else { x.template emplace<2>(s.x); }
+            else if (s.j == 2) { x.template emplace<2>(s.x); }
+            else { if constexpr (WithPod) { x.template emplace<3>(s.x); } }
+        }
+        else if (op == "vet") {
+            // emplace<T>(args...) BY TYPE: its own overload (destroy(); replace(index_of<T>, args...))
+            if (s.j == 0) { x.template emplace<A>(s.x); }
+            else if (s.j == 1) { x.template emplace<int>(s.x); }
+            else if (s.j == 2) { x.template emplace<B>(s.x); }
+            else { if constexpr (WithPod) { x.template emplace<Pod>(s.x); } }
         }
         else if (op == "var") {
             if (s.j == 0) { x = A(s.x); }
             else if (s.j == 1) { x = int(s.x); }
-            else { x = B(s.x); }
+            else if (s.j == 2) { x = B(s.x); }
+            else { if constexpr (WithPod) { x = Pod(s.x); } }
+        }
+        else if (op == "vac" && s.j == 3) {
+            if constexpr (WithPod) { Pod c(s.x); x = c; }
         }
         else if (op == "vat") {
             if (s.j == 0) { Obj tmp(etl::in_place_index<0>, s.x); x = etl::move(tmp); }
             else if (s.j == 1) { Obj tmp(etl::in_place_index<1>, s.x); x = etl::move(tmp); }
-            else { Obj tmp(etl::in_place_index<2>, s.x); x = etl::move(tmp); }
+            else if (s.j == 2) { Obj tmp(etl::in_place_index<2>, s.x); x = etl::move(tmp); }
+            else { if constexpr (WithPod) { Obj tmp(etl::in_place_index<3>, s.x); x = etl::move(tmp); } }
+        }
+        else if (op == "vty") {
+            // the temporary is built by variant(in_place_type<T>, args...)
+            if (s.j == 0) { Obj tmp(etl::in_place_type<A>, s.x); x = etl::move(tmp); }
+            else if (s.j == 1) { Obj tmp(etl::in_place_type<int>, s.x); x = etl::move(tmp); }
+            else if (s.j == 2) { Obj tmp(etl::in_place_type<B>, s.x); x = etl::move(tmp); }
+            else { if constexpr (WithPod) { Obj tmp(etl::in_place_type<Pod>, s.x); x = etl::move(tmp); } }
         }
         else if (op == "vsv") {
             if (s.j == 0) { Obj c(etl::in_place_index<0>, s.x); }
             else if (s.j == 1) { Obj c(etl::in_place_index<1>, s.x); }
-            else { Obj c(etl::in_place_index<2>, s.x); }
+            else if (s.j == 2) { Obj c(etl::in_place_index<2>, s.x); }
+            else { if constexpr (WithPod) { Obj c(etl::in_place_index<3>, s.x); } }
+        }
+        else if (op == "vsy") {
+            if (s.j == 0) { Obj c(etl::in_place_type<A>, s.x); }
+            else if (s.j == 1) { Obj c(etl::in_place_type<int>, s.x); }
+            else if (s.j == 2) { Obj c(etl::in_place_type<B>, s.x); }
+            else { if constexpr (WithPod) { Obj c(etl::in_place_type<Pod>, s.x); } }
         }
         else if (op == "vma") { x = etl::move(y); }
         else if (op == "vsm") { auto& r = x; x = etl::move(r); }
@@ -563,12 +622,15 @@ struct VarAd {
         }
     }
 };
+template <template <int> class T>
+using VarPodAd = VarAd<T, true>;
 
 template <template <int> class T>
 struct OptAd {
     using E   = T<1>;
     using Obj = etl::optional<E>;
     static constexpr bool is_exp = false;
+    static constexpr bool tracked(i64 idx) { return idx == 1; }
     static void observe(Obj const& v, i64& idx, i64& val)
     {
         idx = v.has_value() ? 1 : 0;
@@ -625,6 +687,7 @@ struct ExpAd {
     using B   = T<1>;
     using Obj = etl::expected<A, B>;
     static constexpr bool is_exp = true;
+    static constexpr bool tracked(i64) { return true; }
     static void observe(Obj const& v, i64& idx, i64& val)
     {
         idx = v.has_value() ? 0 : 1;
@@ -671,6 +734,7 @@ struct FunAd {
     using C1  = T<1>;
     using C2  = T<2>;
     using Obj = etl::inplace_function<int(int*), 16>;
+    static constexpr bool tracked(i64 idx) { return idx != 0; }
     static void observe(Obj const& f, i64& idx, i64& val)
     {
         idx = 0;
@@ -763,6 +827,13 @@ static void run_own(std::vector<OStep> const& steps, Out& impl, bool monitor_onl
         }
         if (contract) { stopped = true; break; }
         if (own_is_self(s.op)) { selfs += (obs(*v[s.t]) == before) ? " 1" : " 0"; }
+        // the storage of an object holds an instrumented object exactly when index() names an instrumented alternative
+        // (an alternative without observable special members - int, nullopt_t, Pod, the empty vtable - built over an
+        // object that was not destroyed, or an index that names an alternative that was never built)
+        for (int c = 0; c < 2; ++c) {
+            bool live = mon_storage.get(trk::Loc{c, 0}) != trk::Dead;
+            if (live != Ad::tracked(obs(*v[c]).first)) { mon_storage.wf = false; }
+        }
     }
     bool wf_prefix = mon.wf;
     v[0]->~Obj();
@@ -786,6 +857,7 @@ template <template <int> class T>
 static bool own_dispatch(std::string const& kind, std::vector<OStep> const& steps, Out& impl, bool monitor_only)
 {
     if (kind == "var") { run_own<VarAd<T>>(steps, impl, monitor_only); return true; }
+    if (kind == "vpd") { run_own<VarPodAd<T>>(steps, impl, monitor_only); return true; }
     if (kind == "opt") { run_own<OptAd<T>>(steps, impl, monitor_only); return true; }
     if (kind == "exp") { run_own<ExpAd<T>>(steps, impl, monitor_only); return true; }
     if constexpr (T<1>::copyable) {
@@ -815,7 +887,8 @@ static bool own_case(std::string const& op, Toks& in, Out& impl, Out& ref)
         std::string selfs;
         for (auto const& s : steps) {
             auto const& o = s.op;
-            if (o == "vem" || o == "var" || o == "vac" || o == "vav" || o == "vat" || o == "fas" || o == "vau" || o == "vaw" || o == "fac") { idx[s.t] = s.j; }
+            if (o == "vem" || o == "var" || o == "vac" || o == "vav" || o == "vat" || o == "fas" || o == "vau" || o == "vaw" || o == "fac" || o == "vet"
+                || o == "vty") { idx[s.t] = s.j; }
             else if (o == "vca" || o == "vma" || o == "fca") { idx[s.t] = idx[1 - s.t]; }
             else if (o == "fma") { idx[s.t] = idx[1 - s.t]; idx[1 - s.t] = 0; }
             else if (o == "vsw" || o == "fsw") { std::swap(idx[0], idx[1]); }
@@ -1139,6 +1212,7 @@ static bool pown_case(Toks& in, Out& impl, Out& ref)
 // elements of trk::TrkX into raw storage; the element constructor throws during its (k+1)-th call (k < 0: never).
 //   uhist: impl leg = the events in program order (d.i destination slot, s.j source object) + whether the exception
 //          left the function; reference leg na (correspondence with coq/C03/ModelMem.v)
+//   both:  ret <returned iterator - dest> (copy / move without an exception: n; fill, or after an exception: -)
 //   umon:  impl leg = verdict of the run-time monitor on the real log: thrown <b> wf <b> dest <number of destination
 //          slots holding an object afterwards>; reference leg = the property: thrown iff 0 <= k < n, wf 1, dest 0 after
 //          an exception, else n
@@ -1150,6 +1224,10 @@ static bool umem_case(std::string const& op, Toks& in, Out& impl, Out& ref)
     auto n    = in.num();
     auto k    = in.num();
     if (n < 0 || n > 8) { impl.tok("bad-case"); return true; }
+#if !defined(__cpp_exceptions)
+    // nothing can throw in this build: the cases with a throwing constructor call are not run (engine: `skip`)
+    if (k >= 0 && k < n) { impl.tok("skip"); return true; }
+#endif
     alignas(T) static unsigned char dest_raw[sizeof(T) * 8];
     alignas(T) static unsigned char src_raw[sizeof(T) * 8];
     auto* dest = reinterpret_cast<T*>(dest_raw);
@@ -1167,13 +1245,24 @@ static bool umem_case(std::string const& op, Toks& in, Out& impl, Out& ref)
     auto done   = trk::g_log.size();
     bool thrown = false;
     trk::g_fuse = static_cast<int>(k);
-    try {
-        if (what == "copy") { (void)etl::uninitialized_copy(src, src + n, dest); }
-        else if (what == "move") { (void)etl::uninitialized_move(src, src + n, dest); }
+    // what the algorithm returns (copy / move: one past the last element built; fill returns nothing)
+    T* got      = nullptr;
+    auto invoke = [&] {
+        if (what == "copy") { got = etl::uninitialized_copy(src, src + n, dest); }
+        else if (what == "move") { got = etl::uninitialized_move(src, src + n, dest); }
         else { etl::uninitialized_fill(dest, dest + n, src[0]); }
+    };
+#if defined(__cpp_exceptions)
+    try {
+        invoke();
     } catch (int) {
         thrown = true;
     }
+#else
+    // build without exceptions (variant `noexc`): the `#else` branches of the three algorithms; no constructor may throw
+    invoke();
+#endif
+    std::string ret = (thrown || what == "fill") ? std::string("-") : (got >= dest && got <= dest + 8 ? std::to_string(got - dest) : std::string("outside"));
     trk::g_fuse = -1;
     auto so = mon.run(where, trk::g_log, done);
     long alive_dest = 0;
@@ -1190,11 +1279,12 @@ static bool umem_case(std::string const& op, Toks& in, Out& impl, Out& ref)
             else if (ev.kind == trk::DT) { impl.tok("D:" + nm(ev.self)); }
             else { impl.tok("E" + std::to_string(ev.kind) + ":" + nm(ev.self)); }
         }
-        impl.tok("; thrown").b(thrown);
+        impl.tok("; thrown").b(thrown).tok("ret").tok(ret);
     } else {
-        impl.tok("thrown").b(thrown).tok("wf").b(mon.wf && so.ok).tok("dest").num(alive_dest);
+        impl.tok("thrown").b(thrown).tok("wf").b(mon.wf && so.ok).tok("dest").num(alive_dest).tok("ret").tok(ret);
         bool expect_throw = k >= 0 && k < n;
         ref.tok("thrown").b(expect_throw).tok("wf 1 dest").num(expect_throw ? 0 : n);
+        ref.tok("ret").tok((expect_throw || what == "fill") ? std::string("-") : std::to_string(n));
     }
     // leave nothing behind
     if (!thrown) { for (i64 i = 0; i < n; ++i) { dest[i].~T(); } }
